@@ -125,11 +125,11 @@ theorem updKey_none {ix : Index} {o : ObjId} {prev new : Option KeyVal} :
     | none => simp
     | some nv =>
       cases hg : ix.get nv with
-      | none => simp
+      | none => simp [hg]
       | some o2 =>
         by_cases ho : o2 = o
-        · subst ho; simp
-        · simp [ho]
+        · subst ho; simp [hg]
+        · simp [hg, ho]
 
 /-! ## 3. the key loop and its undo -/
 
